@@ -39,6 +39,7 @@ pub struct MonState {
     pub forks:           u64,
     pub retires:         u64,
     pub retire_reasons:  [u64; 3],
+    pub oog_at:          Vec<u32>,
     pub op_errors:       Vec<(u32, String, bool)>,
     pub stored_errors:   Vec<(u32, String)>,
     pub loops:           BTreeMap<&'static str, LoopStat>,
@@ -74,6 +75,7 @@ impl MonState {
             forks: 0,
             retires: 0,
             retire_reasons: [0; 3],
+            oog_at: Vec::new(),
             op_errors: Vec::new(),
             stored_errors: Vec::new(),
             loops: BTreeMap::new(),
@@ -147,6 +149,7 @@ impl MonState {
             "retire_at_limit": self.retire_reasons[0],
             "retire_out_of_gas": self.retire_reasons[1],
             "retire_killed": self.retire_reasons[2],
+            "oog_at": self.oog_at,
             "op_errors": self.op_errors.iter().map(|(ip, e, r)| json!([ip, e, r])).collect::<Vec<_>>(),
             "stored_errors": self.stored_errors.iter().map(|(ip, e)| json!([ip, e])).collect::<Vec<_>>(),
             "loops": loops,
@@ -210,6 +213,9 @@ impl Monitor for DriverMonitor {
                 }
                 if out_of_gas {
                     s.retire_reasons[1] += 1;
+                    if s.oog_at.len() < 10_000 {
+                        s.oog_at.push(ip);
+                    }
                 }
                 if killed {
                     s.retire_reasons[2] += 1;
